@@ -50,7 +50,7 @@ func (o c17ObsT) n(k string) int {
 
 var c17ColFields = []string{"columnPath", "chunk.PathInSchema", "encodings", "chunk.Encoding", "columnType", "encoding",
 	"hasSwitchedToPlain", "onPlainBuffer", "buffered", "plainBuffered", "dictionary", "pageBuffer", "numPages", "filter",
-	"numRows", "numValues", "totalCompressedSize", "pageLocations", "bloomFilterLength", "levelHistograms"}
+	"numRows", "numValues", "totalCompressedSize", "pageLocations", "bloomFilterLength", "levelHistograms", "geospatialStatistics"}
 
 // effs renders the per-column volatile state as the effect list of a `w` op
 func (o c17ObsT) effs(rowsOverride string) string {
@@ -59,7 +59,7 @@ func (o c17ObsT) effs(rowsOverride string) string {
 		if len(c) != len(c17ColFields) {
 			return "?"
 		}
-		e := []string{c[6], c[7], c[4], c[5], c[8], c[9], c[10], c[11], c[12], c[13], c[14], c[15], c[16], c[17], c[18]}
+		e := []string{c[6], c[7], c[4], c[5], c[8], c[9], c[10], c[11], c[12], c[13], c[14], c[15], c[16], c[17], c[18], c[20]}
 		if rowsOverride != "" {
 			e[10] = rowsOverride
 		}
@@ -106,7 +106,7 @@ func RunC17Mirror(ctx *core.Ctx) {
 	name = strings.TrimPrefix(name, "ok ")
 	ctx.Hist("mirror", name)
 	ctx.SetRule(c17Rule)
-	ncases := ctx.Scale(6, 60)
+	ncases := ctx.Scale(6, 24)
 	type pending struct {
 		req    string
 		real   string
@@ -116,7 +116,7 @@ func RunC17Mirror(ctx *core.Ctx) {
 	var all []pending
 	var wg sync.WaitGroup
 	sem := make(chan struct{}, 16)
-	for _, e := range gen.Catalog {
+	for _, e := range gen.WithGeo() {
 		wg.Add(1)
 		sem <- struct{}{}
 		go func(e *gen.Entry) {
